@@ -113,7 +113,7 @@ def parse_stdout(text):
             continue
         res[cur]["raw"].append(line)
         if line.startswith("VERIFICATION:- "):
-            res[cur]["status"] = line.split(":- ")[1].strip()
+            res[cur]["status"] = line.split(":- ")[1].strip().split(" ")[0]  # "SUCCESSFUL (encountered ... panics as expected)"
         m = re.match(r"Verification Time: ([\d.]+)s", line)
         if m:
             res[cur]["time_s"] = float(m.group(1))
